@@ -220,6 +220,19 @@ example : spec { batch := 2, gasLimit := 1000, overhead := 100 }
 /-- `MaxUpkeepBatchSize` after `ensureMinimumDefaults` (an `int`, so it may be negative on the wire) -/
 def defaultBatch (b : Int) : Int := if b ≤ 0 then 1 else b
 
+/-- the configuration the plugin works with (wire values through `ensureMinimumDefaults`) always meets the
+property's hypothesis `batch ≥ 1`, so `reports_spec` applies to every plugin built by the factory -/
+theorem ensureDefaults_batch_ge_one (b : Int) (g o : Nat) : 1 ≤ (ensureDefaults b g o).batch := by
+  unfold ensureDefaults
+  simp only
+  split
+  · omega
+  · rename_i h; omega
+
+theorem reports_spec_decoded (b : Int) (g o : Nat) (a : List CheckResult) :
+    spec (ensureDefaults b g o) a (reports (ensureDefaults b g o) a) = true :=
+  reports_spec _ (ensureDefaults_batch_ge_one b g o) a
+
 /-- every decoded off-chain configuration satisfies the property's `batch ≥ 1` hypothesis -/
 theorem defaultBatch_ge_one (b : Int) : 1 ≤ defaultBatch b := by
   unfold defaultBatch; split <;> omega
